@@ -5,7 +5,7 @@ import RV.Base.Proto
     reset                 -> ok            (forget the stored solutions)
     row c1 c2 …           -> ok            (one pattern solution; cell = term token or `-`)
     q <query tokens>      -> v1,v2#row;row;…   (evalQuery on the stored solutions; row = cells joined by `,`)
-  term tokens:  I.<dt>.<int>  D.<m>.<s>  F.<m>.<s>  B.0|1  S.<cps>.<langcps>  U.<cps>  N.<cps>   (cps = code points joined by `_`)
+  term tokens:  I.<dt>.<int>  D.<m>.<s>  F.<dt>.<m>.<s>  B.0|1  S.<cps>.<langcps>  U.<cps>  N.<cps>   (cps = code points joined by `_`)
   query tokens: mod(N|D|R) offset(n|-) limit(n|-) nuser  (-| k g1…gk)  nproj (pv v | pe v E)…  (0 | 1 E)  nord ((A|D) E)…
   E: v i | c term | + E E | - E E | cmp (lt|gt|eq|ne|le|ge) E E | agg kind d(0|1) sep(-|s<cps>) (* | E)
   answer cells: Q.<dt>.<num>.<den>  B.0|1  S.<cps>.<langcps>  U.<cps>  N.<cps>  -
@@ -28,10 +28,11 @@ def term? (tk : String) : Option Val :=
     let m ← m.toInt?
     let s ← s.toNat?
     pure (some (.num .decimal (mkRat m (pow10 s)) s))
-  | ["F", m, s] => do
+  | ["F", d, m, s] => do
+    let d ← DT.ofName? d
     let m ← m.toInt?
     let s ← s.toNat?
-    pure (some (.num .double (mkRat m (pow10 s)) s))
+    pure (some (.num d (mkRat m (pow10 s)) s))
   | ["B", b] => if b = "1" then some (some (.bool true)) else if b = "0" then some (some (.bool false)) else none
   | ["S", l, g] => do
     let l ← cps? l
